@@ -326,13 +326,6 @@ impl LspContext {
         Ok(())
     }
 
-    fn join(self) -> MosResult<()> {
-        if let Some(io) = self.connection.unwrap().1 {
-            io.join()?;
-        }
-        Ok(())
-    }
-
     fn find_definitions<'a>(
         &'a self,
         analysis: &'a Analysis,
@@ -430,12 +423,16 @@ impl LspServer {
             .unwrap()
             .initialize(server_capabilities)?;
         self.main_loop(initialization_params)?;
-        Arc::try_unwrap(self.context)
-            .ok()
-            .unwrap()
-            .into_inner()
-            .unwrap()
-            .join()?;
+
+        // The context may still be shared with others (e.g. the debug adapter), so don't try to take ownership of it.
+        // Instead, take the connection out of the context, drop it (so the writer thread can finish) and wait for the IO threads.
+        let connection = self.lock_context().connection.take();
+        if let Some((connection, io_threads)) = connection {
+            drop(connection);
+            if let Some(io_threads) = io_threads {
+                io_threads.join()?;
+            }
+        }
 
         log::info!("Shutting down MOS language server");
         Ok(())
